@@ -337,6 +337,11 @@ func RunMonitor(a MonArgs) int {
 		}
 		return 2
 	}
+	// held: the per-worker logs are of no further use (they run to a gigabyte in
+	// the thorough tier); after a violation or an inconclusive run they stay for inspection
+	if os.Getenv("VERIF_KEEP_WORK") == "" {
+		os.RemoveAll(work)
+	}
 	return 0
 }
 
